@@ -121,7 +121,10 @@ func siblingScenario(c *core.Ctx, idx int, prop string) {
 	hubs := &schema.StoreDef{Type: "hubs", BasePath: []string{"stores"},
 		Fields: []schema.Field{{Name: "nodes", Kind: schema.KList, FK: "nodes", Derived: true}, {Name: "bnodes", Kind: schema.KList, FK: "nodes/kb", Derived: true}},
 		Links:  []schema.LinkDef{{Field: "nodes", Target: "nodes", TargetField: "hubs"}, {Field: "bnodes", Target: "nodes/kb", TargetField: "bhubs"}}}
-	nodes := &schema.StoreDef{Type: "nodes", BasePath: []string{"stores"},
+	// for C03 / C15 the parent store knows system entities: a delete from an ordinary context is refused at the parent
+	// level, and a caller which notes that and commits must find every index of every part untouched
+	sysNodes := prop == "C03" || prop == "C15"
+	nodes := &schema.StoreDef{Type: "nodes", BasePath: []string{"stores"}, Ext: sysNodes, System: sysNodes,
 		Fields: []schema.Field{{Name: "label", Kind: schema.KStr}, {Name: "tags", Kind: schema.KList}, {Name: "hubs", Kind: schema.KList, FK: "hubs", Derived: true}},
 		SetIdx: []string{"tags"},
 		Links:  []schema.LinkDef{{Field: "hubs", Target: "hubs", TargetField: "nodes"}}}
@@ -153,6 +156,7 @@ func siblingScenario(c *core.Ctx, idx int, prop string) {
 		return nil
 	})
 	ids := []string{"nd-one", "nd-two", "nd-three"}
+	isSys := map[string]bool{"nd-two": sysNodes}
 	if prop == "C09" {
 		// more ids: runs of neighbours without data in the second child store, whose unique index is not nullable
 		ids = append(ids, "nd-four", "nd-five", "nd-six")
@@ -170,11 +174,24 @@ func siblingScenario(c *core.Ctx, idx int, prop string) {
 		if via != "parent" && seq%3 != 0 {
 			v["owner"] = "hub-own"
 		}
-		return &schema.Ent{Id: id, Typ: "nodes", V: v}
+		e := &schema.Ent{Id: id, Typ: "nodes", V: v}
+		if sysNodes {
+			e.Ext.Id = id
+			e.Ext.IsSystem = isSys[id] // fixed per id for the lifetime of the case
+		}
+		return e
+	}
+	// which context an operation on id uses: the one that is allowed to (deletes are tried from an ordinary one first)
+	ctxFor := func(ctx boltz.MutateContext, id string) boltz.MutateContext {
+		if sysNodes && isSys[id] {
+			return ctx.GetSystemContext()
+		}
+		return ctx
 	}
 	has := func(tx *bbolt.Tx, id string) (parent, a, b bool) {
 		return stores["parent"].Store.IsEntityPresent(tx, id), bpath(tx, "stores", "nodes", id, "ka") != nil, bpath(tx, "stores", "nodes", id, "kb") != nil
 	}
+	tolerated := 0
 	for step := 0; step < 40; step++ {
 		id := core.Pick(r, ids)
 		kind := core.Pick(r, []string{"create", "create", "create-second-child", "update", "link", "link-b", "delete", "delete", "delete-owner-hub", "create-owner-hub"})
@@ -197,19 +214,33 @@ func siblingScenario(c *core.Ctx, idx int, prop string) {
 			via = "parent" // deleting a parent-only id through a child store is left open
 		}
 		var newEnt *schema.Ent
+		keptAfterRefusal := false
 		opErr := db.Update(nil, func(ctx boltz.MutateContext) error {
 			switch kind {
 			case "create", "create-second-child":
 				newEnt = ent(id, via)
-				return stores[via].Store.Create(ctx, newEnt)
+				return stores[via].Store.Create(ctxFor(ctx, id), newEnt)
 			case "update":
-				return stores[via].Store.Update(ctx, ent(id, via), nil)
+				return stores[via].Store.Update(ctxFor(ctx, id), ent(id, via), nil)
 			case "link":
 				return stores["parent"].Links["hubs"].AddLinks(ctx.Tx(), id, "hub-zz")
 			case "link-b":
 				return stores["childB"].Links["bhubs"].AddLinks(ctx.Tx(), id, "hub-zz")
 			case "delete":
-				return stores[via].Store.DeleteById(ctx, id)
+				if sysNodes && isSys[id] {
+					// first from an ordinary context: refused when the entity exists; the caller notes the error, goes on
+					// in the same transaction (from the context that may) every other time, and commits either way
+					refusal := stores[via].Store.DeleteById(ctx, id)
+					if hadP && refusal == nil {
+						return fmt.Errorf("delete of a system entity from an ordinary context was not refused")
+					}
+					tolerated++
+					if tolerated%2 == 0 {
+						keptAfterRefusal = true
+						return nil // committed with the refused delete in it: nothing may have changed
+					}
+				}
+				return stores[via].Store.DeleteById(ctxFor(ctx, id), id)
 			case "delete-owner-hub":
 				return sc.St("hubs").Store.DeleteById(ctx, "hub-own")
 			case "create-owner-hub":
@@ -262,6 +293,13 @@ func siblingScenario(c *core.Ctx, idx int, prop string) {
 				}
 				return nil
 			})
+		}
+		if keptAfterRefusal {
+			c.Count("refused_deletes_committed_by_a_tolerant_caller", 1)
+			if after.Hash() != before.Hash() {
+				c.Violationf(prop+" siblings: a delete refused at the parent level changed the database (committed by a caller that noted the error; through "+via+")", info, "diff: %v", dump.Diff(before, after, nil, 4))
+			}
+			continue
 		}
 		if opErr != nil {
 			if after.Hash() != before.Hash() {
